@@ -83,8 +83,16 @@ func TestC36(t *testing.T) {
 			rec.Violation(t, bc, "data race reported by the race detector in a concurrent batch (engine %s, %d goroutines, GOMAXPROCS %d)", host.Engine(bc.Job.Engine), bc.Job.Goroutines, bc.GoMaxProcs)
 		}
 		if err != nil {
-			if strings.Contains(err.Error(), "fatal error: concurrent map") {
-				rec.Violation(t, bc, "concurrent map access crashed the child: %v", err)
+			// a child that dies with a Go fatal error / panic while running a concurrent batch is a
+			// violation (e.g. "fatal error: concurrent map writes"), not a harness problem
+			for _, pat := range []string{"fatal error: concurrent map", "fatal error:", "panic:", "SIGSEGV"} {
+				if i := strings.Index(out, pat); i >= 0 && !strings.Contains(out, "out of memory") && !strings.Contains(out, "cannot allocate") {
+					end := i + 3000
+					if end > len(out) {
+						end = len(out)
+					}
+					rec.Violation(t, bc, "the child process crashed while executing the batch concurrently (engine %s, %d goroutines, GOMAXPROCS %d): %s", host.Engine(bc.Job.Engine), bc.Job.Goroutines, bc.GoMaxProcs, out[i:end])
+				}
 			}
 			rec.Inconclusive(t, "%v", err)
 		}
